@@ -91,7 +91,7 @@ def eval_case(desc, ctx):
     grid = ti.real_grid(d, "g.nc", imax, jmax, M, dx=DX, subgrid=tuple(sub) if sub else None)
     if desc["k"] == "history":
         return eval_history(desc, grid, M, lim)
-    P = desc["parts"]
+    P = [[p[0], p[1], p[2], p[3], p[4], float(p[5]), float(p[6])] for p in desc["parts"]]  # "nan"/"inf" strings in replay files
     X = np.array([p[0] for p in P]); Y = np.array([p[1] for p in P])
     U = np.array([p[5] for p in P], dtype=float); V = np.array([p[6] for p in P], dtype=float)
     forcing = ti.StubForcing(U=U, V=V)
